@@ -170,6 +170,10 @@ def build(v, rep):
         rep = rep or 'list'
         if rep == 'list':
             return [build(x, None) if isinstance(x, list) else x for x in v]
+        if rep == 'mixlist':        # R10: a list whose elements differ in type
+            kinds = ['int', 'float', 'np.int16', 'np.float32', 'np.int64', 'nd0']
+            return [build(x, None) if isinstance(x, list) else build(x, kinds[j % len(kinds)])
+                    for j, x in enumerate(v)]
         if rep == 'tuple':
             return tuple(v)
         t = rep.split(':')
@@ -228,16 +232,28 @@ def canon(v):
     return ('num', Fraction(float(v)) if isinstance(v, (float, np.floating)) else Fraction(int(v)))
 
 
-def make_params(p, spec):
-    """fill the SimulationParameters object `p`; returns the objects that were handed over"""
+def order_of(items, seed, salt):
+    """R12: an insertion order derived from `seed` (None = as listed)"""
+    items = list(items)
+    if seed is not None:
+        core.Rng(seed, 'c07-order-%s' % salt).shuffle(items)
+    return items
+
+
+def make_params(p, spec, order=None, built=None):
+    """fill the SimulationParameters object `p` (in the insertion order given by `order`); returns the objects
+    that were handed over (`built`: hand over these objects instead of building new ones)"""
     rep = spec.get('rep', {})
-    built = {}
-    for k, v in sorted(spec['fixed'].items()):
-        built[k] = build(v, rep.get(k))
-        p.add(k, built[k])
+    built = dict(built) if built is not None else {}
+    for k, v in spec['fixed'].items():
+        if k not in built:
+            built[k] = build(v, rep.get(k))
     for n in spec['names']:
-        built[n] = build(list(spec['vals'][n]), rep.get(n))
-        p.add(n, built[n])
+        if n not in built:
+            built[n] = build(list(spec['vals'][n]), rep.get(n))
+    for k in order_of(sorted(spec['fixed']) + list(spec['names']), order, 'params'):
+        p.add(k, built[k])
+    for n in order_of(spec['names'], order, 'unpack'):
         p.set_unpack_parameter(n)
     return built
 
@@ -320,9 +336,9 @@ def case_line(case, pts):
 
     def clk(c):
         return ','.join(str(x) for x in c)
-    return ('resume mode=%s period=%d secs=%d keep=%s n1=%d rm1=%d tags1=%s outs1=%s clk1=%s '
+    return ('resume via=%s mode=%s period=%d secs=%d keep=%s n1=%d rm1=%d tags1=%s outs1=%s clk1=%s '
             'n2=%d rm2=%d tags2=%s outs2=%s clk2=%s pts=%s') % (
-        case.get('mode', 'atomic'), PERIOD, SECS, ';'.join(case['keep']),
+        case.get('via', 'all'), case.get('mode', 'atomic'), PERIOD, SECS, ';'.join(case['keep']),
         len(t1), case['rm1'], ','.join(map(str, t1)), outs(case['outs1']), clk(case['clk1']),
         len(t2), case['rm2'], ','.join(map(str, t2)), outs(case['outs2']), clk(case['clk2']),
         'all' if pts is None else ','.join(map(str, pts)))
@@ -558,8 +574,15 @@ def scale_of(case):
     return 2.0 ** case['scale_exp'] if case.get('scale_exp') else 1
 
 
-def out_value(o, case):
-    """the value a scripted repetition returns for the logical outcome `o` (R1 types, R6 scale)"""
+def out_value(o, case, c=0):
+    """the value a scripted repetition returns for the logical outcome `o` (R1 types, R6 scale, R10 mixed)"""
+    if case.get('out_mix'):
+        # logical value o/2 (scale_exp = -1): an integer type when that is exact and the call index is even,
+        # a float (possibly x.5) otherwise - the accumulated sum must not be truncated to the first type
+        import numpy as np
+        if o % 2 == 0 and c % 2 == 0:
+            return [np.int32, np.int16, int, np.int64][(c // 2) % 4](o // 2)
+        return [float, np.float32, np.float64][c % 3](o * 0.5)
     if case.get('scale_exp'):
         return float(o) * scale_of(case)
     return build(o, case.get('out_rep'))
@@ -572,6 +595,14 @@ def unscale(x, case):
     return x
 
 
+FOLDERS = {'explicit': 'partial_results', 'custom': 'pr2', 'none': None}
+
+
+def folder_of(case):
+    f = (case.get('forms') or {}).get('folder', 'default')
+    return 'partial_results' if f == 'default' else FOLDERS[f]
+
+
 def make_runner(case, which, built=None):
     """a scripted runner configured for run `which`; what it does is in `runner.script` (see `arm`)"""
     from pyphysim.simulations.results import Result, SimulationResults
@@ -581,28 +612,34 @@ def make_runner(case, which, built=None):
         def __init__(self):
             super().__init__(read_command_line_args=False)
             self.update_progress_function_style = None
-            self.pos = 0
             self.script = None
 
         def _run_simulation(self, current_parameters):
             sc = self.script
             outs, clk, off = sc['outs'], sc['clk'], sc['off']
-            if self.pos >= len(outs):
+            if sc['pos'] >= len(outs):
                 raise ScriptExhausted()
-            c = self.pos
+            c = sc['pos']
             o = outs[c]
-            self.pos += 1
+            sc['pos'] += 1
             sc['clock'].now += clk[c] if c < len(clk) else 0
             sc['log'].append((max(current_parameters.unpack_index, 0), off + c, o))
             if sc['hooks'] is not None:
                 sc['hooks'].event('call')
             if o == 's':
                 raise SkipThisOne('scripted skip')
-            r = SimulationResults()
-            r.add_new_result('sum', Result.SUMTYPE, out_value(o, sc['case']))
+            cs = sc['case']
+            val = out_value(o, cs, off + c)
+            entries = [('sum', val)]
             for k in range(sc['nt']):
-                r.add_new_result('tok%d' % k, Result.SUMTYPE,
-                                 (1 << ((off + c) % TOKBITS)) if (off + c) // TOKBITS == k else 0)
+                entries.append(('tok%d' % k, (1 << ((off + c) % TOKBITS)) if (off + c) // TOKBITS == k else 0))
+            for j in range(cs.get('extra_results', 0)):     # R14: many named results, all of the same type
+                entries.append(('x%03d' % j, val))
+            r = SimulationResults()
+            # R12: the order in which a repetition adds its results is not part of their meaning
+            for name, v in order_of(entries, None if cs.get('order') is None else cs['order'] * 1009 + off + c,
+                                    'results'):
+                r.add_new_result(name, Result.SUMTYPE, v)
             return r
 
         def _keep_going(self, current_params, current_sim_results, current_rep):
@@ -614,27 +651,116 @@ def make_runner(case, which, built=None):
 
     runner = Scripted()
     spec = case['p%d' % which]
-    if built is None:
-        runner.built = make_params(runner.params, spec)
-    else:                       # the SAME value objects as another runner (shared between two users)
-        runner.built = built
-        for k in sorted(spec['fixed']):
-            runner.params.add(k, built[k])
-        for n in spec['names']:
-            runner.params.add(n, built[n])
-            runner.params.set_unpack_parameter(n)
-    runner.set_results_filename(BASE + case.get('ext', ''))
-    if case.get('delete'):
-        runner.delete_partial_results_bool = True
+    forms = case.get('forms') or {}
+    order = None if case.get('order') is None else case['order'] * 31 + which
+
+    def set_params():
+        runner.built = make_params(runner.params, spec, order, built)
+
+    def set_name():
+        if forms.get('filename') == 'kw':
+            runner.set_results_filename(filename=BASE + case.get('ext', ''))
+        else:
+            runner.set_results_filename(BASE + case.get('ext', ''))
+
+    def set_folder():
+        if forms.get('folder', 'default') != 'default':
+            runner.partial_results_folder = FOLDERS[forms['folder']]
+
+    def set_delete():
+        if case.get('delete'):
+            runner.delete_partial_results_bool = True
+        elif forms.get('delete') == 'explicit':
+            runner.delete_partial_results_bool = False
+
+    # R8: the pieces of configuration are independent setters; the order in which they are made is not meaningful
+    for step in order_of([set_params, set_name, set_folder, set_delete], order, 'config'):
+        step()
     return runner
 
 
-def arm(runner, case, which, hooks, clock, log):
-    runner.pos = 0
+def new_script(case, which, hooks, clock, log):
+    return {'outs': case['outs%d' % which], 'clk': case['clk%d' % which], 'pos': 0,
+            'off': 0 if which == 1 else len(case['outs1']), 'log': log, 'hooks': hooks,
+            'clock': clock, 'case': case, 'nt': ntok(case)}
+
+
+def arm(runner, case, which, script):
     runner.rep_max = build(case['rm%d' % which], case.get('rm_rep'))
-    runner.script = {'outs': case['outs%d' % which], 'clk': case['clk%d' % which],
-                     'off': 0 if which == 1 else len(case['outs1']), 'log': log, 'hooks': hooks,
-                     'clock': clock, 'case': case, 'nt': ntok(case)}
+    runner.script = script
+
+
+IDX_FORMS = ['int', 'np.int8', 'np.int16', 'np.int32', 'np.int64', 'np.uint8', 'np.uint16', 'np.intp', 'nd0', 'str',
+             'bool', 'kw:int', 'kw:np.int64']
+
+
+def idx_obj(i, form):
+    """R9: the index `i` of a variation in one of the forms `simulate(param_variation_index)` accepts"""
+    import numpy as np
+    form = form.split(':')[-1]
+    if form == 'str':
+        return str(i)
+    if form == 'nd0':
+        return np.array(i)
+    if form == 'bool':
+        return bool(i) if i in (0, 1) else i
+    if form.startswith('np.'):
+        t = getattr(np, form[3:])
+        return t(i) if i <= np.iinfo(t).max else np.int64(i)
+    return int(i)
+
+
+def call_simulate(runner, form):
+    if form == '(None)':
+        runner.simulate(None)
+    elif form == 'kw':
+        runner.simulate(param_variation_index=None)
+    else:
+        runner.simulate()
+
+
+def mutate_children(runner):
+    """R13: objects derived from the parameters (the unpacked children) are changed; the parent - and what is
+    simulated - must not follow"""
+    lst = runner.params.get_unpacked_params_list()
+    for ch in lst:
+        if ch is runner.params:         # nothing is unpacked: the "child" IS the parent (documented)
+            continue
+        for k in list(ch.parameters):
+            v = ch.parameters[k]
+            if isinstance(v, list):
+                v.append(12345)
+            elif hasattr(v, 'fill') and getattr(v, 'ndim', 0) > 0 and v.flags.writeable:
+                v.fill(77)
+        ch.add('zz_child_only', 1)
+        ch.parameters.pop(sorted(ch.parameters)[0], None)
+
+
+def mutate_parent(runner, p1, p2):
+    """R13/R7: the parameters object of a runner that already ran is changed IN PLACE through its mutators
+    (and through the list objects the user still holds) into the parameters `p2`"""
+    params = runner.params
+    rep = p2.get('rep', {})
+    for k in list(p1['fixed']):
+        if k not in p2['fixed'] and k not in p2['names']:
+            params.remove(k)
+    for k, v in p2['fixed'].items():
+        if k not in p1['fixed'] or canon(p1['fixed'][k]) != canon(v):
+            if k in p1['fixed']:
+                params[k] = build(v, rep.get(k))          # __setitem__
+            else:
+                params.add(k, build(v, rep.get(k)))
+    for n in p2['names']:
+        if n in p1['names'] and p1['vals'][n] != p2['vals'][n]:
+            old = runner.built.get(n)
+            if isinstance(old, list) and p2['vals'][n][:len(p1['vals'][n])] == p1['vals'][n]:
+                old.extend(p2['vals'][n][len(p1['vals'][n]):])    # the list object itself grows
+            else:
+                params[n] = build(list(p2['vals'][n]), rep.get(n))
+        elif n not in p1['names']:
+            if n not in p1['fixed']:
+                params.add(n, build(list(p2['vals'][n]), rep.get(n)))
+            params.set_unpack_parameter(n)
 
 
 def _int(x):
@@ -650,7 +776,9 @@ def final_name(case):
 
 
 def part_name(case, spec, i):
-    return os.path.join('partial_results', '%s%s_unpack_%s.pickle' % (BASE, case.get('ext', ''), idx_str(spec, i)))
+    name = '%s%s_unpack_%s.pickle' % (BASE, case.get('ext', ''), idx_str(spec, i))
+    folder = folder_of(case)
+    return os.path.join(folder, name) if folder is not None else name
 
 
 def read_disk(case, root, tab):
@@ -696,20 +824,118 @@ def read_disk(case, root, tab):
 ERRMAP = {'EOFError': 'LoadError', 'UnpicklingError': 'LoadError'}
 
 
-def run_to_end(case, which, root, tab, hooks=None, runner=None, clock=None, built=None):
-    """run `simulate()` of run `which` in `root` (on a fresh runner unless one is given); returns observations"""
+def observable(runner):
+    """everything a query must leave alone"""
+    res = runner.results
+    names = sorted(res.get_result_names())
+    return (repr(runner.rep_max), params_key(runner.params), tuple(runner.params.unpacked_parameters),
+            tuple(sorted(runner.params.parameters)), runner.results_filename, runner.partial_results_folder,
+            runner.delete_partial_results_bool, repr(runner.runned_reps),
+            tuple((n, tuple((repr(r._value), repr(r._total), r.num_updates) for r in res[n])) for n in names
+                  if n != 'elapsed_time'))
+
+
+def queries_for(runner, stage):
+    """R11: public methods that are not documented as setters"""
+    import copy
+    import pickle
+    p = runner.params
+    q = [('repr(runner)', lambda: repr(runner)),
+         ('runner.results_filename', lambda: runner.results_filename),
+         ('runner.runned_reps', lambda: runner.runned_reps),
+         ('runner.partial_results_folder', lambda: runner.partial_results_folder),
+         ('runner.delete_partial_results_bool', lambda: runner.delete_partial_results_bool),
+         ('params.get_num_unpacked_variations', lambda: p.get_num_unpacked_variations()),
+         ('params.get_unpacked_params_list', lambda: p.get_unpacked_params_list()),
+         ('params.unpacked_parameters', lambda: p.unpacked_parameters),
+         ('params.fixed_parameters', lambda: p.fixed_parameters),
+         ('repr(params)', lambda: repr(p)),
+         ('len(params)', lambda: len(p)),
+         ('params==copy', lambda: p == copy.deepcopy(p)),
+         ('params!=other', lambda: p != runner.results.params),
+         ('child==child', lambda: [c == c2 for c in p.get_unpacked_params_list()[:3]
+                                   for c2 in p.get_unpacked_params_list()[:3]]),
+         ('pickle(params)', lambda: pickle.loads(pickle.dumps(p))),
+         ('params.to_dict', lambda: p.to_dict()),
+         ('repr(results)', lambda: repr(runner.results)),
+         ('len(results)', lambda: len(runner.results)),
+         ('results.get_result_names', lambda: runner.results.get_result_names()),
+         ('results==copy', lambda: runner.results == copy.deepcopy(runner.results))]
+    if stage == 'after':
+        res = runner.results
+        q += [('results.get_result_values_list', lambda: res.get_result_values_list('sum')),
+              ('results[name]', lambda: res['sum']),
+              ('results.params', lambda: res.params),
+              ('results.to_dict', lambda: res.to_dict()),
+              ('pickle(results)', lambda: pickle.dumps(res)),
+              ('result.get_result', lambda: [r.get_result() for r in res['sum']]),
+              ('runner.elapsed_time', lambda: runner.elapsed_time)]
+    return q
+
+
+def query_storm(runner, stage, root):
+    """call every query; returns [(name, what)] for those that changed something or raised"""
+    bad = []
+    for name, fn in queries_for(runner, stage):
+        before, files = observable(runner), dir_digest(root)
+        try:
+            fn()
+        except Exception as e:
+            bad.append((name, 'raised %s: %s' % (type(e).__name__, str(e)[:100])))
+            continue
+        if observable(runner) != before:
+            bad.append((name, 'changed the runner / its parameters / its results'))
+        elif dir_digest(root) != files:
+            bad.append((name, 'changed a file'))
+    # R13: every child of the parameters survives a pickle round trip as that child
+    import pickle
+    for ch in runner.params.get_unpacked_params_list()[:4]:
+        back = pickle.loads(pickle.dumps(ch))
+        if params_key(back) != params_key(ch) or back.get_num_unpacked_variations() != ch.get_num_unpacked_variations():
+            bad.append(('pickle(child)', 'the unpacked child with index %r came back as %r' % (ch.unpack_index,
+                                                                                              params_key(back)[:1])))
+    return bad
+
+
+def run_to_end(case, which, root, tab, hooks=None, runner=None, clock=None, built=None, mutate=None):
+    """run `simulate()` of run `which` in `root` (on a fresh runner unless one is given); returns observations.
+    An exception of the library anywhere (configuration included) is the status, never a harness error."""
     log = []
     clock = clock or FakeClock()
     cwd = os.getcwd()
     os.chdir(root)
     status = 'ok'
+    qbad = []
+    forms = case.get('forms') or {}
     try:
         with Instrument(hooks, clock):
-            if runner is None:
-                runner = make_runner(case, which, built)
-            arm(runner, case, which, hooks, clock, log)
             try:
-                runner.simulate()
+                if runner is None:
+                    runner = make_runner(case, which, built)
+                elif mutate is not None:
+                    mutate_parent(runner, *mutate)
+                script = new_script(case, which, hooks, clock, log)
+                arm(runner, case, which, script)
+                if which == 2 and case.get('derive'):
+                    mutate_children(runner)
+                if case.get('queries'):
+                    qbad += query_storm(runner, 'before', root)
+                if which == 2 and case.get('via') == 'singles':
+                    # R8/R9: one `simulate(index)` per variation (index in many forms), then `simulate()`
+                    fl = case.get('idx_forms') or ['int']
+                    for i in range(nvar_of(case['p2'])):
+                        r = runner
+                        if case.get('via_fresh'):
+                            r = make_runner(case, which)
+                            arm(r, case, which, script)
+                        form = fl[i % len(fl)]
+                        if form.startswith('kw:'):
+                            r.simulate(param_variation_index=idx_obj(i, form))
+                        else:
+                            r.simulate(idx_obj(i, form))
+                call_simulate(runner, forms.get('simulate', '()'))
+                if case.get('queries'):
+                    qbad += query_storm(runner, 'after', root)
             except Crash:
                 status = 'crash'
             except ScriptExhausted:
@@ -718,8 +944,9 @@ def run_to_end(case, which, root, tab, hooks=None, runner=None, clock=None, buil
                 status = ERRMAP.get(type(e).__name__, type(e).__name__)
     finally:
         os.chdir(cwd)
-    ob = {'status': status, 'log': log, 'runner': runner, 'clock': clock}
-    ob.update(runner_stats(runner, case))
+    ob = {'status': status, 'log': log, 'runner': runner, 'clock': clock, 'query_bad': qbad}
+    ob.update(runner_stats(runner, case) if runner is not None else {'reps': [], 'stats': [], 'toks': [],
+                                                                     'extra_bad': None})
     return ob
 
 
@@ -730,7 +957,15 @@ def runner_stats(runner, case):
     stats = ['%s.%s.%s' % (_int(unscale(res['sum'][j]._value, case)), _int(tok_of(res, j, nt)),
                            _int(res['num_skipped_reps'][j]._value)) for j in range(n)]
     reps = runner.runned_reps if isinstance(runner.runned_reps, list) else [runner.runned_reps]
-    return {'reps': [int(r) for r in reps], 'stats': stats, 'toks': [tok_of(res, j, nt) for j in range(n)]}
+    extra_bad = None
+    for k in range(case.get('extra_results', 0)):       # R14/R12: every named result holds ITS sum
+        nm = 'x%03d' % k
+        for j in range(n):
+            if nm not in res.get_result_names() or res[nm][j]._value != res['sum'][j]._value \
+                    or res[nm][j].num_updates != res['sum'][j].num_updates:
+                extra_bad = extra_bad or (nm, j)
+    return {'reps': [int(r) for r in reps], 'stats': stats, 'toks': [tok_of(res, j, nt) for j in range(n)],
+            'extra_bad': extra_bad}
 
 
 def describe(obj):
@@ -778,7 +1013,8 @@ def crash_and_restart(case, m, tear, scratch, tab, hard=True, extras=False, powe
         h = Hooks(root, crash_after=m if tear is None else None, tear=tear, snap=snap, final=final_name(case),
                   psnap=psnap)
         if m == 0 and tear is None:
-            ob1 = {'log': [], 'status': 'crash', 'runner': None, 'clock': None}   # killed before anything happened
+            ob1 = {'log': [], 'status': 'crash', 'runner': None, 'clock': None,
+                   'query_bad': []}                           # killed before anything happened
             if snap:
                 os.mkdir(snap)
             if psnap:
@@ -799,19 +1035,21 @@ def crash_and_restart(case, m, tear, scratch, tab, hard=True, extras=False, powe
             before = dir_digest(root) if extras and kind == 'soft' else None
             reuse = kind == 'soft' and case.get('same_runner') and ob1['runner'] is not None
             if reuse:
-                ob1['runner'].script['hooks'] = None
-                ob2 = run_to_end(case, 2, root, tab, runner=ob1['runner'], clock=ob1['clock'])
+                mut = (case['p1'], case['p2']) if case['p1'] is not case['p2'] and case['p1'] != case['p2'] else None
+                ob2 = run_to_end(case, 2, root, tab, runner=ob1['runner'], clock=ob1['clock'], mutate=mut)
             else:
                 ob2 = run_to_end(case, 2, root, tab)
             disk, facts2 = read_disk(case, root, tab)
             ob = {'crash': crash, 'facts': facts, 'calls1': len(ob1['log']), 'log1': ob1['log'],
                   'status1': ob1['status'], 'fired': fired if kind != 'power' else 'power-loss:%s' % fired,
-                  'fired_raw': fired, 'run2': ob2, 'disk': disk, 'facts2': facts2}
+                  'fired_raw': fired, 'run2': ob2, 'disk': disk, 'facts2': facts2,
+                  'run1q': ob1.get('query_bad')}
             if extras and kind == 'soft':
                 ex = {}
                 # R3: the values handed to the runners are what they were
+                mutated_on_purpose = bool(reuse and case['p1'] != case['p2'])
                 for which, r in ((1, ob1['runner']), (2, ob2['runner'])):
-                    if r is None:
+                    if r is None or mutated_on_purpose:
                         continue
                     spec = case['p%d' % which]
                     fresh = {k: build(v, spec.get('rep', {}).get(k)) for k, v in spec['fixed'].items()}
@@ -831,7 +1069,7 @@ def crash_and_restart(case, m, tear, scratch, tab, hard=True, extras=False, powe
                     disk3, facts3 = read_disk(case_ok, root, tab)
                     ex['after_refusal'] = dict(ob, crash=crash_ok, facts=facts_ok, run2=ob3, disk=disk3, facts2=facts3)
                 # R3/R7: one more restart, on the SAME parameter objects, in the completed folder
-                if ob2['status'] == 'ok':
+                if ob2['status'] == 'ok' and not mutated_on_purpose:
                     snap2 = runner_stats(ob2['runner'], case)
                     ob3 = run_to_end(case, 2, root, tab, built=ob2['runner'].built)
                     ex['again'] = {'status': ob3['status'], 'calls': len(ob3['log']), 'stats': ob3['stats'],
@@ -982,6 +1220,49 @@ def oracle_point(case, ob):
     return out
 
 
+def features(case):
+    """which argument forms / robustness features a scenario uses (for failure classes)"""
+    f = []
+    if case.get('via') == 'singles':
+        f.append('via-singles')
+    if case.get('order') is not None:
+        f.append('insertion-order')
+    if case.get('queries'):
+        f.append('queries')
+    if case.get('derive'):
+        f.append('derived-children')
+    if case.get('out_mix'):
+        f.append('mixed-result-types')
+    if case.get('extra_results'):
+        f.append('many-results')
+    if case.get('forms'):
+        f.append('argument-forms')
+    if case.get('same_runner'):
+        f.append('same-runner')
+    if max(nvar_of(case['p1']), nvar_of(case['p2'])) > 256:
+        f.append('many-variations')
+    if max(len(case['p1']['fixed']), len(case['p2']['fixed'])) > 256:
+        f.append('many-parameters')
+    return f or ['plain']
+
+
+def oracle_general(case, ob):
+    """R8-R14 observations available at every crash point. Returns [(call, class, detail)]."""
+    out = []
+    call = 'SimulationRunner.simulate'
+    feat = '+'.join(features(case))
+    if ob['status1'] not in ('crash', 'ok', 'Exhausted'):
+        out.append((call, 'first-run-raises:' + feat, 'the interrupted run itself raised %s' % ob['status1']))
+    for which, run in (('interrupted run', ob.get('run1q') or []), ('restart', ob['run2'].get('query_bad') or [])):
+        for name, what in run:
+            out.append((call, ('query-raises:' if what.startswith('raised') else 'query-mutates:') + name,
+                        '%s, during the %s' % (what, which)))
+    if ob['run2'].get('extra_bad') and ob['run2']['status'] == 'ok':
+        out.append((call, 'named-result-mixed-up', 'result %r of variation %d does not hold the sum of its own '
+                    'values' % ob['run2']['extra_bad']))
+    return out
+
+
 def oracle_extras(case, ob):
     """R3 / R4 / R7 observations of one (soft) crash point. Returns [(call, class, detail)]."""
     out = []
@@ -1023,7 +1304,7 @@ def _replay_point(case, m, tear, hard, power=False):
         r = crash_and_restart(case, m, tuple(tear) if tear else None, scratch, tag_table(case), hard=hard,
                               extras=not hard and not power, power=power)
         ob = r['power' if power else ('hard' if hard else 'soft')]
-        return (oracle_point(case, ob) + oracle_extras(case, ob)) if ob is not None else []
+        return (oracle_point(case, ob) + oracle_general(case, ob) + oracle_extras(case, ob)) if ob is not None else []
     finally:
         shutil.rmtree(scratch, ignore_errors=True)
 
@@ -1348,7 +1629,7 @@ def run_case(ctx, case, pts=None, tears=(0.0, 0.5, 1.0), hard=True, name='crash-
                 ctx.branch('resumed-mid-run')
             ctx.sample({'line': case_line(case, [m])[:400], 'tear': tear, 'kind': kind, 'impl': impl[:300],
                         'model': model[:300]}, limit=5)
-            viols = oracle_point(case, ob)
+            viols = oracle_point(case, ob) + oracle_general(case, ob)
             ex = ob.get('extras')
             if ex is not None:
                 viols = viols + oracle_extras(case, ob)
